@@ -244,6 +244,8 @@ impl<'a> Gen<'a> {
             else if self.r.chance(2, 3) { "500000000000000000".to_string() } else { self.slip() };
         // zero tolerance is a valid, enforced value: a small trade (well inside the 1 % default) with max_slippage 0
         let (amt, ms) = if !big && self.r.chance(1, 12) { (res / [100_000u128, 5000, 300][self.r.below(3) as usize] + 1, "0".to_string()) } else { (amt, ms) };
+        // dust swaps whose output rounds to zero: accepted only under a belief price above the offer (expected return 0)
+        let (amt, belief) = if self.r.chance(1, 14) { (1 + self.r.below(3) as u128, ["1000000000000000000000000", "5000000000000000000", "1000000000000000000"][self.r.below(3) as usize].to_string()) } else { (amt, belief) };
         let recv = self.receiver(sender);
         let funds = if amt == 0 { vec![] } else { vec![coin(amt, pi.assets[oi].denom.clone())] };
         // the real query entry points an instant before the swap: Simulation, ReverseSimulation of a few asks, and (constant
@@ -309,6 +311,8 @@ impl<'a> Gen<'a> {
         }
         if ops.is_empty() { return self.op_swap(); }
         if self.r.chance(1, 20) && ops.len() > 1 { ops[1].0 = "uom".into(); } // non-consecutive
+        // a hop whose input and output denom coincide (the chain of denoms stays consecutive)
+        if self.r.chance(1, 12) { let k = self.r.below(ops.len() as u64) as usize; let d = ops[k].0.clone(); ops[k].1 = d.clone(); for j in k + 1..ops.len() { if j == k + 1 { ops[j].0 = d.clone(); } } }
         let mut amt = offer_res / [100_000u128, 10_000, 1000, 200, 20][self.r.below(5) as usize] + 1;
         // boundary probing of the 50 % cap: a large trade under an explicit tolerance above the cap
         let big = self.r.chance(1, 5);
